@@ -1328,6 +1328,49 @@ Proof.
   unfold bs_run. rewrite Hi, Hp. cbn [orb bs_interrupted bs_buf bs_tx]. rewrite Hb, Ht. auto.
 Qed.
 
+(* below the limit nothing is ever flagged ... *)
+Lemma body_step_small t0 done s c :
+  quiet t0 done s -> bs_inbound s = false -> (length (done ++ snd c) < limit)%nat ->
+  bs_inbound (body_step limit reject process s c) = false.
+Proof.
+  intros (Hi & Hp & Hb & Ht & Hl) Hs L. destruct c as [api chunk]. cbn [snd] in L.
+  rewrite app_length in L. unfold body_step. rewrite Hb.
+  destruct (limit =? length done)%nat eqn:E0; [exact Hs|].
+  destruct api.
+  - destruct (limit <=? length done + length chunk)%nat eqn:E1; [apply Nat.leb_le in E1; lia|exact Hs].
+  - destruct (limit <=? length done + length chunk)%nat eqn:E1; [apply Nat.leb_le in E1; lia|exact Hs].
+  - destruct (length (done ++ firstn (limit - length done) chunk) =? limit)%nat eqn:E1; [|exact Hs].
+    apply Nat.eqb_eq in E1. rewrite app_length, firstn_length in E1. lia.
+Qed.
+
+Lemma fold_small t0 chunks : forall done s,
+  quiet t0 done s -> bs_inbound s = false -> (length (done ++ concat (map snd chunks)) < limit)%nat ->
+  bs_inbound (fold_left (body_step limit reject process) chunks s) = false.
+Proof.
+  induction chunks as [|c chunks IH]; intros done s Q Hs L; cbn [fold_left map concat] in *; [exact Hs|].
+  assert (L1 : (length (done ++ snd c) < limit)%nat).
+  { rewrite !app_length in *. lia. }
+  pose proof (body_step_small t0 done s c Q Hs L1) as H1.
+  apply (IH (done ++ snd c)); [|exact H1|rewrite <- app_assoc; exact L].
+  apply body_step_quiet; [intros _; exact Q|exact H1].
+Qed.
+
+(* ... so what the rules see does not depend on how the body was split into chunks, nor on the
+   entry point used for each chunk: it is the processor's result on the concatenation *)
+Theorem body_stream_split_independent chunks t0 :
+  (length (concat (map snd chunks)) < limit)%nat ->
+  let s := body_stream limit reject process chunks t0 in
+  bs_inbound s = false /\ bs_interrupted s = false /\
+  bs_buf s = concat (map snd chunks) /\ bs_tx s = process (concat (map snd chunks)) t0.
+Proof.
+  intros L s.
+  assert (H : bs_inbound s = false).
+  { unfold s, body_stream. rewrite bs_run_inbound.
+    apply (fold_small t0 chunks []); [|reflexivity|exact L].
+    unfold quiet. cbn. repeat split; auto. }
+  split; [exact H|]. now apply body_limit_signalled.
+Qed.
+
 End Stream.
 
 (* ------------------------------------------------------------------------------------ *)
